@@ -169,7 +169,7 @@ func vSymTree3(name string, depth int) vTree {
 // canonical down-conversion, for bounded trees of every RESP3 kind.
 func VerifH_c15_downconvert() {
 	VerifSetup()
-	t := vSymTree3("t", 1+vTier())
+	t := vSymTree3("t", 2)
 	var got respValue
 	panicked, msg := vCatch(func() { got = resp3To2(t.v) })
 	vAssert("resp3to2-no-panic", !panicked)
@@ -316,8 +316,23 @@ func VerifH_c15_commands() {
 		{"LCS", "k", "k", "IDX"}, {"HELLO"}, {"BITFIELD", "k", "GET", "u4", "0"},
 		{"CLIENT", "INFO"}, {"CLIENT", "LIST"}, {"INCRBYFLOAT", "f", "1.5"}, {"HINCRBYFLOAT", "hf", "f", "1.5"},
 		{"SCAN", "0"}, {"HSCAN", "h", "0"}, {"COMMAND", "COUNT"}, {"GET", "h"}, {"NOSUCHCOMMAND"},
+		// deeply nested replies (arrays of arrays holding maps / sets)
+		{"COMMAND", "INFO", "get"}, {"COMMAND", "INFO", "lmpop", "nosuch"}, {"COMMAND", "DOCS", "get"}, {"COMMAND", "GETKEYS", "SET", "a", "b"},
+		{"COMMAND", "GETKEYSANDFLAGS", "SET", "a", "b"}, {"SRANDMEMBER", "s", "5"}, {"HRANDFIELD", "h1", "2"}, {"SINTERCARD", "1", "s"},
+		{"EXEC"}, // a transaction whose results have every shape
 	}
 	i := vChoice("cmd", len(cmds))
+	if cmds[i][0] == "EXEC" {
+		for _, c := range []*clientState{c3, c2} {
+			vCmd(c, "MULTI")
+			vCmd(c, "HGETALL", "h")
+			vCmd(c, "SMEMBERS", "s")
+			vCmd(c, "HRANDFIELD", "h1", "1", "WITHVALUES")
+			vCmd(c, "COMMAND", "INFO", "get")
+			vCmd(c, "GET", "nokey")
+			vCmd(c, "INCR", "l")
+		}
+	}
 	var r3, r2 respValue
 	p3, m3 := vCatch(func() { r3 = vCmd(c3, cmds[i]...) })
 	p2, m2 := vCatch(func() { r2 = vCmd(c2, cmds[i]...) })
